@@ -193,7 +193,7 @@ Section Serve.
       subst id.
       destruct (op_exists s2 i) eqn:Eex; cbn [negb] in *.
       2:{ apply neutral_seat; [reflexivity|]. apply J_gone.
-          - intros Hph. rewrite (J_pub i s g Hph) in HJ. destruct HJ as [Hlt _]. cbn. lia.
+          - intros Hph. pose proof (J_lt i s g Hph HJ) as Hlt. cbn. lia.
           - unfold op_exists in Eex. unfold getop. cbn in *. destruct (lookup i (s_ops s1)); [discriminate|reflexivity]. }
       assert (Hex : exists o, getop s2 i = Some o).
       { unfold op_exists in Eex. unfold getop. destruct (lookup i (s_ops s2)) as [o|]; [eauto|discriminate]. }
@@ -254,7 +254,7 @@ Section Serve.
           unfold core_of in Hc4. inversion Hc4. congruence. }
         assert (Hgone : is_panic (r_out (fail_op cfg s4c i k)) = false -> forall x, J (halt_on_error (r_s (fail_op cfg s4c i k)) x) g).
         { intros Hnp x. apply halt_J. apply J_gone.
-          - intros Hph. rewrite (J_pub i s g Hph) in HJ. destruct HJ as [Hlt _]. lia.
+          - intros Hph. pose proof (J_lt i s g Hph HJ) as Hlt. lia.
           - unfold getop. rewrite (fail_op_lookup enc dec ores ires cfg s4c i k i Hnp), N.eqb_refl. reflexivity. }
         assert (Hnl : forallb (neutralb i)
                   (OPick i :: lr ++ OValid i packet r (Err k) ::
